@@ -18,6 +18,7 @@ SPEC = {
         "(f) every communicate-style entry point (Popen::communicate/_bytes, Communicator::read/read_string, "
         "Exec/Pipeline::capture) funnels into this loop — no other pipe read/write is reachable from them."
         " Thorough tier, cfg(windows) sibling: pipe I/O happens only in the helper threads; the helper protocol terminates (a reader announces EOF exactly on read()==0 and stops, the stream bits are distinct single bits, the receive loop waits only while a bit is left and each EOF retires exactly its sender's bit)."
+        " One I/O step per readiness report: no pipe read/write site (in read_into or any helper down to the system call) lies on a cycle that does not pass through maybe_poll."
     ),
     "not_decided": "liveness itself under all kernel schedules and pipe capacities; behaviour of poll(2); the Windows rendezvous protocol "
                    "beyond the clause checked in the thorough tier.",
@@ -29,6 +30,23 @@ SPEC = {
 PIPE_BUF = 4096
 ENTRY = ["popen::Popen::communicate", "popen::Popen::communicate_bytes", "communicate::Communicator::read", "communicate::Communicator::read_string",
          "builder::exec::Exec::capture", "builder::pipeline::Pipeline::capture"]
+
+
+def eof_retires_stream(ctx, E, dr, Td, rule):
+    """a stream is retired (*source_ref = None) exactly on the zero edge of the count its own read() returned — not on an error mapped
+    to 0, not on a stale count: 'all streams gone' is what lets a read report all-empty data, so it must mean real end-of-file"""
+    n_term = None
+    for bb, t in E.reads:
+        call = ("call", M.callee_str(t["f"]), tuple(Td.operand(a) for a in t["args"]), bb)
+        n_term = call
+    stores = [(bb, si, s) for bb in dr.live_blocks() for si, s in enumerate(dr.blocks[bb]["stmts"])
+              if s["k"] == "assign" and s["p"]["l"] == 1 and [e["k"] for e in s["p"]["proj"]] == ["deref"]]
+    is_n = lambda x: M.strip(x)[0] == "call" and n_term is not None and M.strip(x)[3] == n_term[3] and M.strip(x)[1] == n_term[1]
+    zero_e = bool_edges(dr, Td, lambda c: c[0] == "bin" and c[1] == "Ne" and const_of(c[3]) == 0 and is_n(c[2]), False) + \
+        bool_edges(dr, Td, lambda c: c[0] == "bin" and c[1] == "Eq" and const_of(c[3]) == 0 and is_n(c[2]), True)
+    ok = len(stores) == 1 and Td.rvalue(stores[0][2]["r"]) == ("agg", ("adt", "std::option::Option", "None"), ()) and dominated_by_edges(dr, stores[0][0], zero_e)
+    ctx.ob(rule, "eof-retires-stream", ok, dr.loc(stores[0][0] if stores else 0), "on a 0-byte read (EOF) the stream must be retired (*source_ref = None); otherwise the loop polls a hung-up pipe forever")
+    return stores, zero_e
 
 
 def run(ctx):
@@ -175,17 +193,7 @@ def run(ctx):
                "one write after POLLOUT is bounded by %s bytes (must be a constant <= PIPE_BUF = %d: a larger write can block although poll reported writability, and the parent then stops draining the child's output)" % (bound, PIPE_BUF))
 
     # ---- R01.4 retirement -----------------------------------------------------------------------------
-    n_term = None
-    for bb, t in E.reads:
-        call = ("call", M.callee_str(t["f"]), tuple(Td.operand(a) for a in t["args"]), bb)
-        n_term = call
-    stores = [(bb, si, s) for bb in dr.live_blocks() for si, s in enumerate(dr.blocks[bb]["stmts"])
-              if s["k"] == "assign" and s["p"]["l"] == 1 and [e["k"] for e in s["p"]["proj"]] == ["deref"]]
-    is_n = lambda x: M.strip(x)[0] == "call" and n_term is not None and M.strip(x)[3] == n_term[3] and M.strip(x)[1] == n_term[1]
-    zero_e = bool_edges(dr, Td, lambda c: c[0] == "bin" and c[1] == "Ne" and const_of(c[3]) == 0 and is_n(c[2]), False) + \
-        bool_edges(dr, Td, lambda c: c[0] == "bin" and c[1] == "Eq" and const_of(c[3]) == 0 and is_n(c[2]), True)
-    ok = len(stores) == 1 and Td.rvalue(stores[0][2]["r"]) == ("agg", ("adt", "std::option::Option", "None"), ()) and dominated_by_edges(dr, stores[0][0], zero_e)
-    ctx.ob("R01.4", "eof-retires-stream", ok, dr.loc(stores[0][0] if stores else 0), "on a 0-byte read (EOF) the stream must be retired (*source_ref = None); otherwise the loop polls a hung-up pipe forever")
+    stores, zero_e = eof_retires_stream(ctx, E, dr, Td, "R01.4")
     # every path from the n == 0 edge to return passes the store
     if zero_e and stores:
         rets = dr.return_blocks()
@@ -223,6 +231,39 @@ def run(ctx):
         # the result of take is dropped, not kept
         reads = local_reads(ri)
         ctx.ob("R01.4", "taken-stdin-is-dropped", not reads.get(takes[0][1]["dest"]["l"]), ri.loc(takes[0][0]), "the File taken out of self.stdin must be dropped right away")
+
+    # ---- R01.9 one blocking I/O step per readiness report ------------------------------------------------------------------
+    # poll() vouches for *one* read / one bounded write on a stream; a second read of the same stream without a new poll can block on an
+    # empty pipe while the child is blocked writing to the other one.  So: no pipe I/O site may be repeated inside a cycle that does not
+    # pass through maybe_poll — in read_into itself, and in every helper between it and the system call.
+    io_fns = {}          # function path -> blocks that perform pipe I/O directly or through a helper
+    for p_ in sorted(M.local_closure(prog, [ri.path])):
+        f_ = prog.fns.get(p_)
+        if f_ is None:
+            continue
+        direct = [bb for bb, t in f_.calls() if is_file_io(M.callee_str(t["f"]))]
+        if direct:
+            io_fns[p_] = set(direct)
+    changed = True
+    while changed:
+        changed = False
+        for p_ in sorted(M.local_closure(prog, [ri.path])):
+            f_ = prog.fns.get(p_)
+            if f_ is None:
+                continue
+            via = {bb for bb, t in f_.calls() if M.callee_names(t["f"]) & set(io_fns) and p_ not in M.callee_names(t["f"])}
+            if via - io_fns.get(p_, set()):
+                io_fns[p_] = io_fns.get(p_, set()) | via
+                changed = True
+    ctx.floor("R01.9", "functions performing pipe I/O under read_into", len(io_fns), 2)
+    for p_, blocks in sorted(io_fns.items()):
+        f_ = prog.fns[p_]
+        removed = {E.mp_call[0]} if p_ == ri.path and E.mp_call else set()
+        cyc = M.sccs(f_, removed=removed)
+        rep = sorted(b for b in blocks if any(b in c for c in cyc))
+        ctx.ob("R01.9", "one-io-step-per-poll@%s" % p_.split("::")[-1], not rep, f_.loc(rep[0] if rep else 0),
+               "%s repeats a pipe read/write inside a loop that does not go back through maybe_poll (blocks %s): only the first such call is covered by "
+               "poll()'s readiness report, the next one can block on one pipe while the child is blocked on another" % (p_, rep))
 
     # ---- R01.5 loop exits ---------------------------------------------------------------------------------
     exits = [(b, s) for b in sorted(E.loop) for s in ri.succs(b) if s not in E.loop and ri.blocks[s]["term"]["k"] != "unreachable"]
